@@ -7,6 +7,8 @@
 import FordModel.Parse
 import FordModel.Lemmas.Parse
 import FordModel.Generated.C01
+import FordModel.TypeSpec
+import FordModel.Lemmas.TypeSpec
 namespace Ford.C01
 open Ford.Parse
 
@@ -119,5 +121,58 @@ def sample : Evs :=
     (.consD (.mk .program 13 false false (.consL .use 1 .nil) false .nil) .nil)
 
 example : sample.wf .file false = true ∧ sample.progs ≤ 1 := by decide
+
+/-! ### equivalent spellings of a declaration's type specification (`parse_type`, character level) -/
+
+open Ford.TypeSpec in
+/-- **Kind spellings agree (`real*8` ≡ `real(8)` ≡ `real(kind=8)`).**  For every numeric intrinsic
+    type, written in any letter case, any digit string `n`, any amount of blanks wherever Fortran
+    allows them (also after the asterisk, repaired by the `fix:` commit for C01-star-blank), the keyword `kind` in any letter case, and any continuation of the statement that
+    `get_parens` stops at (end of text, a blank, a letter, `_`, `:` or `,`), the three spellings
+    decompose into the same type, the same kind `n` and the same remainder, and none of them fails. -/
+theorem kind_spellings_agree (ty : NumT) (t w1 w2 w3 K wa wb ws n tail : Str)
+    (ht : lower t = ty.kw) (hK : lower K = (chars! "kind"))
+    (h1 : isBlank w1 = true) (h2 : isBlank w2 = true) (h3 : isBlank w3 = true)
+    (ha : isBlank wa = true) (hb : isBlank wb = true) (hws : isBlank ws = true)
+    (hn : ∀ c ∈ n, isDigit c = true) (hne : n ≠ []) (htail : EndsScan tail)
+    (hnl : ∀ c ∈ w1 ++ w2 ++ w3 ++ wa ++ wb ++ tail, c ≠ '\n') (hnls : ∀ c ∈ ws, c ≠ '\n') :
+    let expected : Except TErr Parsed := .ok { vartype := ty.kw, rest := strip tail, kind := some n }
+    parseType (t ++ (w1 ++ (('*' :: (ws ++ n)) ++ tail))) = expected ∧
+    parseType (t ++ (w1 ++ (('(' :: (w2 ++ n ++ w3) ++ [')']) ++ tail))) = expected ∧
+    parseType (t ++ (w1 ++ (('(' :: (w2 ++ K ++ wa ++ '=' :: (wb ++ n ++ w3)) ++ [')']) ++ tail))) = expected := by
+  have hkc : ∀ c ∈ n, kindCh c = true := fun c hc => digit_kindCh (hn c hc)
+  have hp := kind_paren_kw_agree ty t w1 w2 w3 K wa wb n tail ht hK h1 h2 h3 ha hb hkc hne htail hnl
+  refine ⟨?_, hp.1, hp.2⟩
+  exact parseType_star ty t w1 ws n tail ht h1 hws hn hne htail
+    (fun c hc => by
+      simp only [List.mem_append] at hc
+      rcases hc with (hc | hc) | hc
+      · exact hnl c (by simp [hc])
+      · exact hnls c hc
+      · exact hnl c (by simp [hc]))
+
+open Ford.TypeSpec in
+/-- **`t(k)` ≡ `t(kind=k)` for every flat kind expression** (a name such as `dp`, `real64`, `c_int`, a
+    component `k%v`, a number): same type, same kind, same remainder, no failure, in any letter case
+    and blank layout. -/
+theorem kind_keyword_optional (ty : NumT) (t w1 w2 w3 K wa wb k tail : Str)
+    (ht : lower t = ty.kw) (hK : lower K = (chars! "kind"))
+    (h1 : isBlank w1 = true) (h2 : isBlank w2 = true) (h3 : isBlank w3 = true)
+    (ha : isBlank wa = true) (hb : isBlank wb = true)
+    (hk : ∀ c ∈ k, kindCh c = true) (hne : k ≠ []) (htail : EndsScan tail)
+    (hnl : ∀ c ∈ w1 ++ w2 ++ w3 ++ wa ++ wb ++ tail, c ≠ '\n') :
+    let expected : Except TErr Parsed := .ok { vartype := ty.kw, rest := strip tail, kind := some k }
+    parseType (t ++ (w1 ++ (('(' :: (w2 ++ k ++ w3) ++ [')']) ++ tail))) = expected ∧
+    parseType (t ++ (w1 ++ (('(' :: (w2 ++ K ++ wa ++ '=' :: (wb ++ k ++ w3)) ++ [')']) ++ tail))) = expected :=
+  kind_paren_kw_agree ty t w1 w2 w3 K wa wb k tail ht hK h1 h2 h3 ha hb hk hne htail hnl
+
+open Ford.TypeSpec in
+/-- non-vacuity: `ReAL  *8 :: x`, `ReAL  ( 8 ) :: x`, `ReAL  ( KiNd = 8 ) :: x` meet the hypotheses, and
+    the model computes the common decomposition -/
+example :
+    (parseType "ReAL  * 8 :: x".toList).toOption = some { vartype := "real".toList, rest := ":: x".toList, kind := some ['8'] } ∧
+    (parseType "ReAL  ( 8 ) :: x".toList).toOption = some { vartype := "real".toList, rest := ":: x".toList, kind := some ['8'] } ∧
+    (parseType "ReAL  ( KiNd = 8 ) :: x".toList).toOption
+      = some { vartype := "real".toList, rest := ":: x".toList, kind := some ['8'] } := by decide
 
 end Ford.C01
